@@ -13,6 +13,7 @@ use vh::security::{uid_encode, Uid};
 
 pub struct World {
     pub peers: BTreeMap<String, Peer>,
+    pub rx: HashMap<String, tokio::sync::broadcast::Receiver<discret::Event>>,
     pub short: BTreeMap<String, String>, // entity name -> storage short name
     pub long: HashMap<String, String>,   // short -> abstract name ("A", "B")
     pub config: Configuration,
@@ -23,13 +24,14 @@ pub struct Scn {
     pub hash_ids: HashMap<Vec<u8>, i64>,
     pub terms: HashMap<Vec<u8>, String>,
     pub peers: Vec<String>,
+    pub events: bool,
 }
 
 impl World {
     pub async fn new() -> World {
         let mut config = Configuration::default();
         config.parallelism = 2;
-        World { peers: BTreeMap::new(), short: BTreeMap::new(), long: HashMap::new(), config }
+        World { peers: BTreeMap::new(), rx: HashMap::new(), short: BTreeMap::new(), long: HashMap::new(), config }
     }
 
     pub async fn ensure_peer(&mut self, name: &str, user: &str) {
@@ -46,6 +48,8 @@ impl World {
                     panic!("could not read entity short names: {:?}", self.short);
                 }
             }
+            let rx = p.services.events.subcribe().await;
+            self.rx.insert(name.to_string(), rx);
             self.peers.insert(name.to_string(), p);
         }
     }
@@ -235,6 +239,52 @@ pub async fn project_all(world: &World, scn: &mut Scn) -> Value {
     Value::Object(m)
 }
 
+/// every event emitted so far has reached the subscriber: the db actor, the writer and the event service are
+/// each asked something after the change, in the order in which an event travels through them
+pub async fn drain_events(world: &mut World, scn: &Scn) -> Value {
+    let mut m = Map::new();
+    for pn in scn.peers.clone() {
+        {
+            let p = &world.peers[&pn];
+            p.write_barrier().await;
+            let _ = p.db.query("query { sys.Room(first 1) { id } }", None).await;
+            let _ = p.services.events.subcribe().await;
+        }
+        let mut evs = Vec::new();
+        let rx = world.rx.get_mut(&pn).unwrap();
+        loop {
+            match rx.try_recv() {
+                Ok(discret::Event::DataChanged(dm)) => {
+                    for (room, ents) in &dm.rooms {
+                        let rn = vh::security::uid_decode(room).map(|u| scn.names.room(&u)).unwrap_or("?".to_string());
+                        if rn.starts_with('?') {
+                            continue;
+                        }
+                        for (ent, dates) in ents {
+                            for d in dates {
+                                evs.push(json!({"k":"data","room":rn,"ent":ent.strip_prefix("v.").unwrap_or(ent),"day":(d - BASE_DAY).div_euclid(DAY_MS)}));
+                            }
+                        }
+                    }
+                }
+                Ok(discret::Event::RoomModified(room)) => {
+                    let rn = scn.names.room(&room.id);
+                    if !rn.starts_with('?') {
+                        let mut users: Vec<String> = room.users().iter().map(|k| scn.names.key(k)).collect();
+                        users.sort();
+                        evs.push(json!({"k":"room","room":rn,"users":users}));
+                    }
+                }
+                Ok(_) => {}
+                Err(tokio::sync::broadcast::error::TryRecvError::Lagged(n)) => evs.push(json!({"k":"lagged","n":n})),
+                Err(_) => break,
+            }
+        }
+        m.insert(pn, json!(evs));
+    }
+    Value::Object(m)
+}
+
 fn err_class(e: &str) -> String {
     let e = e.to_lowercase();
     if e.contains("authorisation") || e.contains("rejected") {
@@ -346,6 +396,54 @@ pub async fn run_step(world: &mut World, scn: &mut Scn, step: &Value, out: &mut 
                 None => res = Err("unknown row".to_string()),
             }
         }
+        "stream" => {
+            // several creations pipelined on the mutation stream, then the stream is closed
+            let p = &world.peers[&s(step, "p")];
+            let (send, mut recv) = p.db.mutation_stream();
+            let items = arr(step, "items").clone();
+            let room = scn.names.rooms.get(&s(step, "room")).cloned();
+            let mut pending = Vec::new();
+            if let Some(room) = room {
+                let n = items.len();
+                let feeder = async {
+                    for it in &items {
+                        let ent = world.ent_full(&s(it, "ent"));
+                        let q = format!("mutate {{ {ent} {{ room_id:$room name:$text }} }}");
+                        let _ = send.send((q, params(&[("room", uid_encode(&room)), ("text", s(it, "text"))]))).await;
+                    }
+                    drop(send);
+                };
+                let collector = async {
+                    let mut got = Vec::new();
+                    while let Some(r) = recv.recv().await {
+                        got.push(r);
+                        if got.len() == n {
+                            break;
+                        }
+                    }
+                    got
+                };
+                let (_, got) = tokio::join!(feeder, collector);
+                for (i, r) in got.into_iter().enumerate() {
+                    match r {
+                        Ok(mq) => {
+                            let ent = world.ent_full(&s(&items[i], "ent"));
+                            if let Ok(txt) = mq.result() {
+                                if let Some(id) = id_of_result(&txt, &ent) {
+                                    pending.push((s(&items[i], "row"), id));
+                                }
+                            }
+                        }
+                        Err(e) => res = Err(e.to_string()),
+                    }
+                }
+            } else {
+                res = Err("unknown room".to_string());
+            }
+            for (row, id) in pending {
+                scn.names.add_row(&row, id);
+            }
+        }
         "compute" => {
             world.peers[&s(step, "p")].recompute().await;
         }
@@ -354,10 +452,15 @@ pub async fn run_step(world: &mut World, scn: &mut Scn, step: &Value, out: &mut 
             match scn.names.rooms.get(&s(step, "room")).cloned() {
                 Some(room) => {
                     let abort = step.get("abort").and_then(|a| a.as_u64()).map(|a| a as usize);
-                    world.peers[&q].recompute().await;
-                    world.peers[&p].recompute().await;
+                    let own = step.get("norecompute").and_then(|a| a.as_bool()).unwrap_or(false);
+                    if !own {
+                        world.peers[&q].recompute().await;
+                        world.peers[&p].recompute().await;
+                    }
                     let (r, stats) = pull(&world.peers[&p], &world.peers[&q], room, abort).await;
-                    world.peers[&p].recompute().await;
+                    if !own {
+                        world.peers[&p].recompute().await;
+                    }
                     ev["fetched"] = json!(stats.nodes_requested);
                     ev["queries"] = json!(stats.queries);
                     if let Err(e) = r {
@@ -449,13 +552,16 @@ pub async fn run_step(world: &mut World, scn: &mut Scn, step: &Value, out: &mut 
             world.peers[&p].write_barrier().await;
         }
     }
+    if scn.events {
+        ev["events"] = drain_events(world, scn).await;
+    }
     ev["st"] = project_all(world, scn).await;
     out.emit(ev);
 }
 
 pub async fn run_scenario(world: &mut World, sc: &Value, out: &mut TraceWriter) {
     let peers: Vec<String> = arr(sc, "peers").iter().map(|x| x.as_str().unwrap().to_string()).collect();
-    let mut scn = Scn { names: Names::default(), hash_ids: HashMap::new(), terms: HashMap::new(), peers: peers.clone() };
+    let mut scn = Scn { names: Names::default(), hash_ids: HashMap::new(), terms: HashMap::new(), peers: peers.clone(), events: sc.get("events").and_then(|e| e.as_bool()).unwrap_or(false) };
     for p in &peers {
         let user = sc["users"][p].as_str().unwrap_or("u1").to_string();
         world.ensure_peer(p, &user).await;
@@ -463,6 +569,9 @@ pub async fn run_scenario(world: &mut World, sc: &Value, out: &mut TraceWriter) 
         scn.names.keys.insert(k, user);
     }
     set_clock(0, 1);
+    if scn.events {
+        let _ = drain_events(world, &scn).await; // forget what earlier scenarios left in the subscribers
+    }
     out.emit(json!({"ev":"begin","sid":sc["sid"],"peers":peers}));
     for step in arr(sc, "steps") {
         run_step(world, &mut scn, step, out).await;
